@@ -16,6 +16,7 @@ package main
 import (
 	"fmt"
 	"hash/fnv"
+	"runtime"
 	"time"
 
 	"github.com/buildbarn/bb-storage/pkg/blobstore/local"
@@ -30,7 +31,7 @@ func main() {
 		Level:    "exploration",
 		Rule: "random engine: case = (table of 1-13 records or a prime up to 251, get attempts 1-16, put attempts 1-64, hash initialisation random / FNV basis / 0 / brute-forced so that several keys share their first slot, record array in memory or on a block device, 2-40 keys incl. keys differing in one byte) x 300 operations " +
 			"{store(key, location) with non-monotone, repeated and shared locations; release oldest block; push block; open epoch}; whole key universe looked up after every operation; distinct = hash(configuration, operation log); non-trivial = at least one store displaced an entry or was counted as a discard. " +
-			"exhaustive engine: every operation sequence up to the stated depth over {store(3 keys x <=3 blocks x 2 offsets), release, push} on tables of 1-4 records x get attempts 1-3 x put attempts 1-4 x 3 hash initialisations x both record arrays, breadth-first, deduplicated by table content; distinct = (configuration, table content)",
+			"exhaustive engine: every operation sequence over {store(3 or 4 keys x <=3 live blocks x 2 offsets), release oldest, push} on tables of 1-4 records x get attempts 1-3 x put attempts 1-4 x 3 hash initialisations x both record arrays (quick: 3 keys, 36 of these configurations), breadth-first from the empty table until no new table content appears, every content expanded once by every operation; distinct = (configuration, table content)",
 		Workers:     8,
 		CaseTimeout: 10 * time.Minute,
 		Floors: map[string]int64{
@@ -66,6 +67,9 @@ func main() {
 }
 
 func body(w *run.Worker) {
+	// Every case is sequential; more Ps only buy garbage-collector contention
+	// between the worker processes.
+	runtime.GOMAXPROCS(2)
 	// The index registers its collectors on first construction.
 	newSUT(&config{size: 1, getA: 1, putA: 1, count: 1, epoch: 1, keys: []local.Key{{}}})
 	mr, err := newMetricsReader()
@@ -179,8 +183,11 @@ func sizeOf(abs int, off int64) int64 { return 1 + (int64(abs)*31+off*7)%97 }
 
 func randomEngine(w *run.Worker, mr *metricsReader) {
 	st := &stats{m: map[string]int64{}}
-	w.Cases("random", w.N(2400, 120000), func(c *run.Case) {
-		r := c.Rng
+	w.Cases("random", w.N(4000, 120000), func(c *run.Case) {
+		// c.Rng is derived from (seed, worker, group, index) by xor-ing small
+		// integers into one word, which makes the case lists of seeds 1, 2 and
+		// 3 permutations of each other; the seed is mixed in once more.
+		r := gen.New(c.Rng.Uint64(), w.Seed*0x9e3779b97f4a7c15, c.Rng.Uint64())
 		cfg := &config{}
 		switch x := r.Intn(100); {
 		case x < 62:
